@@ -16,7 +16,8 @@ TECHNIQUE = 'explicit-state BFS over register/unregister/service-update historie
 RULE = ('operations: register(loc in {L1, L2, method M}, kind in {snapshot, snapshot+metric}) with a payload unique per '
         'call; unregister(h) for every handle ever returned (dead ones too); service_update(S in {empty, T on L2, T on L1}); '
         'all histories to the depth bound, de-duplicated by (observed installed behaviour in order, model state); '
-        'non-trivial = histories with >= 2 live registrations on one location or an unregister of a dead handle')
+        'non-trivial = histories with >= 2 live registrations on one location or an unregister of a dead handle'
+        ' ; after every registration the caller mutates the lists and dict it passed; E1 facet: two application threads using handles at once (unregister/unregister, unregister/register, the same handle twice) on three registrations of one line, preemption bound 2 / 3')
 ASSUMPTIONS = ['sequential histories (inline task execution); concurrency of updates is C12',
                'closure is not claimed: payloads are unique per call so the state space is unbounded; the depth bound is the bound']
 
